@@ -66,6 +66,33 @@ theorem generated_text_convert_eq_model (encF : SwcText.Sci → Int) (s : SwcTex
   subst h2
   exact key
 
+/-- **PARTIAL — texts on which the lexer raises** (`Asc.Tok.bad ∈ Asc.tokens s`): the generated lexer part is resolved — the conversion
+from the text is `AlgoRun.ascConvertPrefix` (the generated parser run on the tokens BEFORE the failure, rejecting iff it asked for one
+more: the real parser pulls tokens on demand) applied to `enc` of the model's tokens before its first `.bad`.
+MISSING for the full equality with `Asc.convert s` on such texts: (1) a model lemma "`Asc.convertTokens (pre ++ .bad :: rest)` = the run on
+`pre`, an error iff that run errs or consumes all of `pre`" (induction over `parseSubtree` / `parseTop` like `RefineAscFuel`), (2)
+`RefineAscTop.parse_refines` strengthened to expose the parser's final `next_token` (= the head of the model's final remaining tokens).
+Until then this branch is tied by the `gasctext` correspondence lines (documents followed by a rejected word) only. -/
+theorem generated_text_convert_bad_partial (encF : SwcText.Sci → Int) (s : SwcText.Str) (hb : Asc.Tok.bad ∈ Asc.tokens s) :
+    AlgoRun.ascConvertText encF s = AlgoRun.ascConvertPrefix ((goodPrefix (Asc.tokens s)).1.map (enc encF)) := by
+  obtain ⟨h1, h2⟩ := generated_lex_eq_model encF s
+  rw [(goodPrefix_snd _).mpr hb] at h2
+  unfold AlgoRun.ascConvertText
+  rw [← h1]
+  generalize AlgoRun.ascLexAll encF s = r at h2
+  obtain ⟨toks, b⟩ := r
+  simp only at h2
+  subst h2
+  rfl
+
+/-- non-vacuity (kernel-evaluated): a rejected word BEHIND the parser's last look-ahead is never lexed by the real code — the generated
+pipeline converts the document (one row), as `Asc.convert` does; AT the look-ahead it is an error in both -/
+example : Asc.Tok.bad ∈ Asc.tokens "((Axon)(1 2 3 4))( 1abc".toList := by decide +kernel
+example : (AlgoRun.ascConvertText exEnc "((Axon)(1 2 3 4))( 1abc".toList).map (·.1) = some 1 ∧
+    (Asc.convert "((Axon)(1 2 3 4))( 1abc".toList).toOption.map (·.length) = some 1 := by decide +kernel
+example : AlgoRun.ascConvertText exEnc "((Axon)(1 2 3 4)) 1abc".toList = none ∧
+    (Asc.convert "((Axon)(1 2 3 4)) 1abc".toList).toOption = none := by decide +kernel
+
 /-! ### non-vacuity (kernel-evaluated) -/
 
 /-- the text of the document of `C15Gen.exModelToks` / `exToks` (a split, parents −1, 0, 0), with a comment and a line break -/
